@@ -3,7 +3,8 @@ import lib
 import cms_common as cc
 
 import log_common as _L
-ALLOWED_AXIOMS = frozenset(_L.PRIMITIVES)   # Print Assumptions lists the kernel's primitive float/int operations under 'Axioms:'
+import lib as _lib
+ALLOWED_AXIOMS = frozenset(set(_L.PRIMITIVES) | set(_lib.AX_FLOAT) | set(_L.AX_UINT63) | set(_lib.AX_REALS))   # kernel primitives are listed under 'Axioms:'; the general float lemmas use the stdlib's FloatAxioms/Uint63 axioms and (via Flocq) the real-number axioms
 MANIFEST = dict(
     category="proof",
     text="Coq theorems for any two count-min states with counters in range: linear: merged cell = min(a+b, 2^32-1), "
@@ -108,7 +109,61 @@ def run(ctx):
     run_log(ctx)
 
 
+def alias_suite(ctx):
+    """b unchanged — also LATER: after a.merge(b) the two sketches must not share state.  Persistent sketches of all
+    three count-min classes (receiver or argument possibly empty at merge time); after the merge one of them is
+    modified (add / merge with a third) and the other must still equal its snapshot, byte for byte."""
+    import numpy as np
+    from sketchnu.countmin import CountMinLinear, CountMinLog16, CountMinLog8
+    rng = ctx.rng
+    nviol = 0
+    mks = {"linear": lambda w, d: CountMinLinear(w, d), "log16": lambda w, d: CountMinLog16(w, d, 100000, 3),
+           "log8": lambda w, d: CountMinLog8(w, d, 1000, 3)}
+    keys = [b"", b"a", b"b", b"\x00", b"key", b"zz", b"q"]
+
+    def snap(s):
+        return (np.asarray(s.cms).copy(), s.n_added_records.copy())
+
+    def same(s, sn):
+        return np.array_equal(np.asarray(s.cms), sn[0]) and np.array_equal(s.n_added_records, sn[1])
+    for it in range(150 if ctx.tier == "quick" else 1500):
+        kind = rng.choice(list(mks))
+        w, d = rng.choice([1, 2, 4]), rng.choice([1, 2])
+        a, b, c = (mks[kind](w, d) for _ in range(3))
+        trace = []
+        for s, nm in ((a, "a"), (b, "b"), (c, "c")):
+            if rng.random() < 0.6:                      # 40%: left empty on purpose
+                for _ in range(rng.randint(1, 4)):
+                    k, v = rng.choice(keys), rng.choice([1, 2, 3])
+                    s.add(k, v)
+                    trace.append(["add", nm, list(k), v])
+        a.merge(b)
+        trace.append(["merge", "a", "b"])
+        bad = None
+        for step in range(rng.randint(1, 4)):
+            tgt, other, tn, on = (a, b, "a", "b") if rng.random() < 0.5 else (b, a, "b", "a")
+            sn = snap(other)
+            if rng.random() < 0.6:
+                k, v = rng.choice(keys), rng.choice([1, 2, 5])
+                tgt.add(k, v)
+                trace.append(["add", tn, list(k), v])
+            else:
+                tgt.merge(c)
+                trace.append(["merge", tn, "c"])
+            if not same(other, sn):
+                bad = {"clause": "sketches share state after merge: modifying one changed the other", "modified": tn, "changed": on}
+                break
+        ctx.case_seen(("alias", kind, w, d, repr(trace)), True)
+        ctx.count("alias:" + kind)
+        if bad and nviol < 2:
+            bad.update({"class": kind, "width": w, "depth": d, "trace": trace})
+            ctx.violation(bad, "merge left the two sketches sharing state (b is not left unchanged by later operations on a)")
+            nviol += 1
+    ctx.tick("aliasing suite (all three count-min classes)")
+
+
 def run_log(ctx):
+    alias_suite(ctx)
     try:
         import log_checks
     except ImportError:
